@@ -300,19 +300,21 @@ def c06(seed, tier):
     nm = [fld("N_" + m, ["//govalid:" + m, "//govalid:length=7"], basic("string")) for m in markers]
     inner = [fld("I_" + m, ["//govalid:" + m], basic("string")) for m in markers]
     deep = [fld("D_" + m, ["//govalid:" + m, "//govalid:required"], basic("string")) for m in markers]
-    fields = top + comb + nm + [fld("In", [], nested=inner + [fld("Deep", [], nested=deep)])]
+    a_alias, astr = alias("Addr", basic("string"))        # an alias IS the type string
+    al = [fld("A_" + m, ["//govalid:" + m, "//govalid:required"], astr) for m in markers]
+    fields = top + comb + nm + al + [fld("In", [], nested=inner + [fld("Deep", [], nested=deep)])]
     maxv = max(len(v) for v in strs.values())
     cases = []
     for k in range(maxv):
         sets = []
         for m in markers:
             s = strs[m][k % len(strs[m])]
-            for p in ("F_", "C_", "N_"):
+            for p in ("F_", "C_", "N_", "A_"):
                 sets.append(set_str(p + m, s))
             sets.append(set_str("In.I_" + m, s))
             sets.append(set_str("In.Deep.D_" + m, s))
         cases.append(case(sets))
-    return {"scenarios": [scenario("c06", [struct("T", fields, cases)])]}
+    return {"scenarios": [scenario("c06", [struct("T", fields, cases)], aux=[a_alias])]}
 
 
 # ----------------------------------------------------------------------------- random structs (C07, C08, C09, C15-C17, C19)
